@@ -51,7 +51,7 @@ LEVEL_NOTE = ('Trusted: the recording source and the eat_chunk instance wrappers
 TECHNIQUE = 'offline event-log checker (conservation, never-after, exactly-once, cut-off) + boundary and line-level failpoints'
 
 NAMES = ['raw', 'qcow2', 'vhd', 'vhdx', 'vmdk', 'vdi', 'qed', 'iso', 'gpt', 'luks']
-EXC_POOL = ['ValueError', 'RuntimeError', 'KeyError', 'struct.error', 'MemoryError', 'ImageFormatError', 'Custom',
+EXC_POOL = ['RecursionError', 'ValueError', 'RuntimeError', 'KeyError', 'struct.error', 'MemoryError', 'ImageFormatError', 'Custom',
             'UnicodeDecodeError', 'Unprintable', 'NoArgs']
 
 
@@ -491,6 +491,11 @@ def streams():
             {'spec': {'gen': 'raw', 'params': {'kind': 'zero', 'total': 3000}}},
             {'spec': {'gen': 'raw', 'params': {'kind': 'text', 'total': 3000}}},
             {'data': junk},
+            # text for more than the first 512 bytes (what the VMDK inspector takes for a text descriptor), then bytes that
+            # do not decode as ASCII - in one chunk when the schedule has no early cut: whatever an inspector makes of it
+            {'data': (b'# Disk DescriptorFile\nversion=1\ncreateType="monolithicSparse"\n' + b'# padding line of text\n' * 40)[:700] + b'\xff\xfe caf\xc3\xa9 \x80' * 20 + b'x' * 2000},
+            {'data': (b'just some readable text, line after line\n' * 40)[:600] + bytes(range(128, 256)) * 4 + b'y' * 2000},
+            {'data': (b'createType="vmfs"\n' + b'RW 1 FLAT "a" 0\n' * 60)[:513] + b'\xe9' + b'z' * 2500},
             {'spec': {'gen': 'iso', 'params': {'total': 36000}}},
             {'spec': bad_vhdx},                                                                       # natural: region signature
             {'spec': {'gen': 'vhdx', 'params': {'meta_off': 256 * 1024, 'region_count': 2048, 'tail': 100}}},
